@@ -85,7 +85,8 @@ def buildSpec (ws : List String) : Res Packet :=
   | _ => .panic
 
 def parseLimit (s : String) : Option Nat :=
-  if s == "none" then none else if s == "default" then some Consts.maxSize else some (nat! s)
+  if s == "none" then none else if s == "default" then some Consts.maxSize
+  else if s == "defaultudp" then some Consts.maxSizeUdp else some (nat! s)
 
 /-- parse one builder call of the protocol into `Builder.BOp` -/
 def parseBOp (op : String) : Option Builder.BOp :=
